@@ -19,7 +19,7 @@ structure Decoded where
   recordSize : Nat := 0
   unknown : Bool := false
   hardLink : Bool := false
-  xattr : List (Bytes × Bytes) := []        -- head = most recently added (the C code prepends)
+  xattr : List (Bytes × Bytes) := []        -- in list order (`->next`)
   mode : Nat := 0
   uid : Nat := 0
   gid : Nat := 0
@@ -209,7 +209,9 @@ def kindFlag : PaxKind → Nat
   | .schily => 0 | .libarchive => 0 | .sparseMap => 0
 
 /-- `apply_handler`; `value` = the bytes between '=' and the record's last byte (which was overwritten by NUL) -/
-def applyHandler (out : Decoded) (k : PaxKind) (key value : Bytes) : Option Decoded :=
+def applyHandler (keepOrder : Bool) (out : Decoded) (k : PaxKind) (key value : Bytes) : Option Decoded :=
+  -- the C code prepends (`xattr->next = out->xattr`), i.e. `keepOrder = false`: a member's xattrs come out in reverse archive order
+  let add (l : List (Bytes × Bytes)) (x : Bytes × Bytes) := if keepOrder then l ++ [x] else x :: l
   let sval := cstr value
   match k with
   | .uid => (parseUint sval).map fun v => { out with uid := v.1 }
@@ -223,11 +225,11 @@ def applyHandler (out : Decoded) (k : PaxKind) (key value : Bytes) : Option Deco
   | .linkpath => some { out with link := some sval }
   | .sparseMajor => some out
   | .sparseMinor => some out
-  | .schily => some { out with xattr := (key.drop 13, value) :: out.xattr }            -- "SCHILY.xattr."
+  | .schily => some { out with xattr := add out.xattr (key.drop 13, value) }            -- "SCHILY.xattr."
   | .libarchive =>
     match base64Decode value with
     | none => none
-    | some v => some { out with xattr := (cstr (urlDecode (key.drop 17)), v) :: out.xattr }   -- "LIBARCHIVE.xattr."
+    | some v => some { out with xattr := add out.xattr (cstr (urlDecode (key.drop 17)), v) }   -- "LIBARCHIVE.xattr."
   | .sparseMap => (paxSparseMap sval).map fun m => { out with sparse := m }
 
 /-! ### `read_pax_header` -/
@@ -258,7 +260,7 @@ structure PaxState where
 
 /-- one iteration of the `for (line = buffer; line < end; line += len)` loop on the remaining bytes `l`;
     result: new state and `len` -/
-def paxLine (st : PaxState) (l : Bytes) : Option (PaxState × Nat) :=
+def paxLine (keepOrder : Bool) (st : PaxState) (l : Bytes) : Option (PaxState × Nat) :=
   match strtol10 l with
   | none => none                                               -- `ptr == line`
   | some (neg, len, p) =>
@@ -282,7 +284,7 @@ def paxLine (st : PaxState) (l : Bytes) : Option (PaxState × Nat) :=
               let value := valueArea.dropLast                  -- `len - (value - line) - 1` bytes
               match findHandler key with
               | some k =>
-                match applyHandler st.out k key value with
+                match applyHandler keepOrder st.out k key value with
                 | none => none
                 | some o => some ({ st with out := o, mask := setFlag st.mask (kindFlag k) }, len)
               | none =>
@@ -299,16 +301,16 @@ def paxLine (st : PaxState) (l : Bytes) : Option (PaxState × Nat) :=
                 else some (st, len)
           | _ => none
 
-def paxLoop : Nat → PaxState → Bytes → Option PaxState
+def paxLoop (keepOrder : Bool) : Nat → PaxState → Bytes → Option PaxState
   | 0, _, _ => none
   | f + 1, st, l =>
     if l.isEmpty then some st
-    else match paxLine st l with
+    else match paxLine keepOrder st l with
       | none => none
-      | some (st', len) => paxLoop f st' (l.drop len)
+      | some (st', len) => paxLoop keepOrder f st' (l.drop len)
 
 /-- `read_pax_header` on the `entsize` payload bytes: new header and `set_by_pax` -/
-def readPaxHeader (payload : Bytes) (out : Decoded) (mask : Nat) : Option (Decoded × Nat) :=
-  (paxLoop (payload.length + 1) { out := out, mask := mask } payload).map fun st => (st.out, st.mask)
+def readPaxHeader (keepOrder : Bool) (payload : Bytes) (out : Decoded) (mask : Nat) : Option (Decoded × Nat) :=
+  (paxLoop keepOrder (payload.length + 1) { out := out, mask := mask } payload).map fun st => (st.out, st.mask)
 
 end Sqfs.Tar
